@@ -86,7 +86,7 @@ class C20(Check):
     ASSUMPTIONS = ['pyarrow is trusted as parquet codec and as the independent reader']
     ANCHORS = ['rxsci/container/parquet.py', 'rxsci/data/batch.py']
     REQUIRED_TAGS = ['none', 'snappy', 'gzip', 'zstd', 'rows=0', 'rows<b', 'rows=b', 'rows=kb', 'rows%b!=0', 'path', 'fileobj',
-                     'nested', 'required', 'dictattr', 'row_group', 'rows-with-mixed_order', 'rows-with-mixed_extra', 'rows-with-reversed', 'pushed-source', 'after-a-failed-dump', 'numpy-typed-batch-size']
+                     'nested', 'required', 'dictattr', 'row_group', 'rows-with-mixed_order', 'rows-with-mixed_extra', 'rows-with-reversed', 'pushed-source', 'after-a-failed-dump', 'numpy-typed-batch-size', 'file-object-not-at-position-0']
     REQUIRED_OBSERVED = ['rows_compared_rxsci_reader', 'rows_compared_pyarrow_reader']
 
     def __init__(self):
@@ -200,6 +200,11 @@ class C20(Check):
                 g = subscribe2(call(P.load_from_file, [('filename', path), ('batch_size', lb)]), out, 'load_from_file', same=lambda x, y: repr(x) == repr(y), abuse=(lb == case['load_batches'][0]))
             else:
                 with open(path, 'rb') as f:
+                    if (n + lb) % 3 == 0:
+                        # a file object whose position is NOT the start: at end-of-file (the object a dump just wrote to,
+                        # handed over without seek(0)) or somewhere in the middle - parquet readers seek absolutely
+                        f.seek(0, 2) if n % 2 else f.seek(min(7, os.path.getsize(path)))
+                        out.tags.append('file-object-not-at-position-0')
                     g = subscribe(call(P.load_from_file, [('filename', f), ('batch_size', lb)]), Snap())
             if g.err is not None or not g.done:
                 return out.fail('load_from_file-failed', error=repr(g.err), done=g.done, load_batch=lb)
